@@ -233,6 +233,10 @@ def parseRefs (gs : List (List Tok)) : Option (List (Bool × NI × Nat × Nat)) 
     | _ => none)
 
 def handleObsRefs (st : RibSt) (refs : List (Bool × NI × Nat × Nat)) : RibSt :=
+  -- a RIB without its check function (`DisableRIBCheckFn`: "a testing RIB that does not need to
+  -- have working references") installs entries whose group or instance does not exist and never
+  -- refuses a DELETE: its counters are not meant to follow the references, nothing is judged
+  if st.nocheck then st else
   -- C03 monitor: every counter equals the number of installed referrers
   let bad := refs.find? (fun r => match r with
     | (isNhg, ni, id, c) => if isNhg then countNhgRefs st.implEnts ni id != c else countNhRefs st.implEnts ni id != c)
